@@ -30,6 +30,8 @@ pub struct RunResult {
     pub nontrivial: bool,
     pub state_hashes: Vec<u64>,
     pub steps: u64,
+    /// engine-private observations (e.g. for comparing two executions of one case)
+    pub aux: Vec<String>,
 }
 
 impl RunResult {
